@@ -39,6 +39,9 @@ CHECKS = {
             ("R-ALLOC.io", "r_alloc", "run_io", ("quick", "thorough")),
             ("R-TABIDX.digit", "r_tables", "run_digit_index", ("quick", "thorough")),
             ("R-BUFGROW", "r_alloc", "run_bufgrow_io", ("quick", "thorough"))],
+    "C03": [("R-ABI.c03", "r_abi", "run_c03", ("quick", "thorough")),
+            ("R-ALIAS.c03", "r_alias", "run_c03", ("quick", "thorough")),
+            ("R-NORM.c03", "r_norm", "run_c03", ("quick", "thorough"))],
     "C14": [("R-PURE", "r_assert", "run_pure", ("quick", "thorough")),
             ("R-CONSTASSERT", "r_assert", "run_constassert", ("quick", "thorough")),
             ("R-TMP.modes", "r_tmp", "run_modes", ("quick", "thorough")),
@@ -79,9 +82,24 @@ RULES = {
     "R-ALLOC.blockmove": ("r_alloc", "run_blockmove"),
     "R-ABI.state": ("r_abi", "run_state"),
     "R-BUFGROW": ("r_alloc", "run_bufgrow"),
+    "R-ABI.c03": ("r_abi", "run_c03"),
+    "R-ALIAS.c03": ("r_alias", "run_c03"),
+    "R-NORM.c03": ("r_norm", "run_c03"),
 }
 
 EXPLANATION = {
+    "C03": "Decides three structural clauses of the property, not the limb arithmetic.  (1) R-ABI.c03: abstract interpretation of the machine code "
+           "of every assembly implementation (all 94 files under mpn/x86_64/** in both tiers) of add_n, sub_n, add_err1/2_n, sub_err1/2_n, lshift, "
+           "rshift, copyi, copyd, com_n, addadd_n, addsub_n, subadd_n, sumdiff_n, nsumdiff_n: on every path through the unrolled loops and "
+           "their tails (every residue of n modulo the unrolling factor) the carry flag consumed by adc / sbb / rcl / rcr was produced by the carry "
+           "chain or restored from a saved copy of it, never by loop-control arithmetic; no limb is stored before a limb of a source that the C "
+           "twin's overlap assertion allows to be the same vector has been loaded; every argument is read, every output operand written, the "
+           "returned carry register defined on every path to every ret; callee-saved registers and the stack are restored.  (2) R-ALIAS.c03: in "
+           "mpz_add, mpz_sub, mpz_add_ui, mpz_sub_ui, mpz_ui_sub, mpz_neg, mpz_abs, mpz_mul_2exp, mpz_set, mpz_swap no limb pointer is used after "
+           "a reallocation that may have moved it and no source is read after a destination that may be the same variable was written (in-place "
+           "use is part of the property's quantifier).  (3) R-NORM.c03: after a subtraction, which can cancel any number of high limbs "
+           "(equal-magnitude cancellation), the size is trimmed by a full MPN_NORMALIZE.  Whether the limbs computed are the sum, difference or "
+           "shift is not decided.",
     "C15": "Static whole-program analysis of the linked LLVM IR of every C unit of libmpir: every global and "
            "function-local static is classified (constant / never written and never escaping / written), the written "
            "ones must be exactly the documented set and exported functions reaching their writers must be the "
@@ -158,6 +176,9 @@ EXPLANATION = {
 }
 
 ASSUMPTIONS = {
+    "R-ABI.c03": ["same abstract machine and assumptions as R-ABI; the kernel set is chosen by file name (the library's one-routine-per-file convention)"],
+    "R-ALIAS.c03": ["aliasflow (R-STALE, R-CLOBBER) over the whole mpz/mpq/mpf layer; findings kept only in the files C03 is anchored in"],
+    "R-NORM.c03": ["R-NORM over the whole tree; findings kept only in the files C03 is anchored in"],
     "R-GLOBAL": ["clang -O0 IR + SROA + function-attrs of the 505 C units reflects the sources; assembly kernels are leaf "
                  "routines touching only their arguments (checked by R-ABI under C14)",
                  "indirect calls are not followed in the reach computation (function tables are constant, checked)",
